@@ -180,7 +180,7 @@ fn gen_table(rng: &mut Rng, infix_only: bool, distinct: bool) -> Levels {
     let mut next_rule = 1u8;
     let mut levels = vec![];
     for _ in 0..nl {
-        let n = rng.range(1, 3);
+        let n = if rng.chance(1, 4) { rng.range(4, 7) } else { rng.range(1, 3) };   // also long `|` chains on one level
         let single = if rng.chance(1, 2) { Aff::L } else { Aff::Rt };
         let mut lvl = vec![];
         for _ in 0..n {
